@@ -1,19 +1,27 @@
 #!/bin/bash
-# Runs every seeded change against its own property's quick check (search only, regress tier off)
-# and writes seeded/RESULTS.tsv. /repo is patched and restored for each one: run nothing else meanwhile.
+# Runs every seeded change (or those matching $PATTERN) against its own property's quick check (search only,
+# saved-replay tier off) and the neighbouring checks listed below, each on its own scratch copy of /repo
+# (VERIF_REPO), $JOBS at a time, and writes $OUT (default seeded/RESULTS.tsv).
 cd /verif
 export VERIF_NO_REGRESS=1
 OUT=${OUT:-seeded/RESULTS.tsv}
 PATTERN=${PATTERN:-seeded/C*-*}
-printf "mutant\tconfirmed\town_check\tkey\tother_checks\n" > $OUT
-declare -A EXTRA=( [C14-c]="C04" [C14-d]="C19" [C06-d]="C09" [C09-c]="C08" [C02-c]="C17" [C17-d]="C02" [C08-c]="C19" [C15-d]="C09" [C10-d]="C09" [C16-d]="C07" [C07-d]="C06" [C03-d]="C01" [C05-c]="C10" [C05-d]="C06" [C19-d]="C04" [C18-a]="C04" [C19-b]="C10" [C14-a]="C09" [C05-b]="C10" [C16-b]="C06" [C20-b]="C10" [C09-b]="C08" [C08-b]="C09" [C11-b]="C18" [C18-b]="C02" )
-for d in $PATTERN; do
-  m=$(basename $d); P=${m%-*}; X=${m#*-}
-  R=$(./seedeval.sh $P $X $P ${EXTRA[$m]:-} 2>&1)
-  conf=$(echo "$R" | grep -o "build=[a-zA-Z]* suite=[a-zA-Z]* demo-with-change=[a-z]* demo-without=[a-z]*" | head -1 | sed 's/demo-with-change=//; s/demo-without=/\//; s/ \//\//')
+JOBS=${JOBS:-4}
+one() {
+  m=$(basename $1); P=${m%-*}; X=${m#*-}
+  case $m in
+    C18-a) E="C04";; C19-b) E="C10";; C14-a) E="C09";; C05-b) E="C10";; C16-b) E="C06";; C20-b) E="C10";; C09-b) E="C08";; C08-b) E="C09";;
+    C11-b) E="C18";; C18-b) E="C02";; C14-c) E="C04";; C14-d) E="C19";; C06-d) E="C09";; C02-c) E="C17";; C17-d) E="C02";; C15-d) E="C09";;
+    C10-d) E="C09";; C16-d) E="C07";; C07-d) E="C06";; C03-d) E="C01";; C05-d) E="C06";; *) E="";;
+  esac
+  R=$(./seedeval.sh $P $X $P $E 2>&1)
+  conf=$(echo "$R" | grep -o "build=[a-zA-Z]* suite=[a-zA-Z]* demo-with-change=[a-z]* demo-without=[a-z]*" | head -1 | sed 's/demo-with-change=//; s/ demo-without=/\//')
+  echo "$R" | grep -q "does not apply" && conf="patch no longer applies to the current tree"
   own=$(echo "$R" | grep "check $P:" | head -1 | sed 's/.*exit=\([0-9]*\).*/\1/')
   key=$(echo "$R" | grep "check $P:" | head -1 | sed 's/.*key=//')
   other=$(echo "$R" | grep "check " | grep -v "check $P:" | sed 's/ *check \(C[0-9]*\): exit=\([0-9]*\).*/\1=\2/' | tr '\n' ' ')
-  printf "%s\t%s\t%s\t%s\t%s\n" "$m" "$conf" "$own" "$key" "$other" >> $OUT
-done
-git -C /repo status --short
+  printf "%s\t%s\t%s\t%s\t%s\n" "$m" "$conf" "$own" "$key" "$other"
+}
+export -f one
+ls -d $PATTERN | xargs -P $JOBS -I{} bash -c 'one {}' | sort > $OUT.body
+( printf "mutant\tconfirmed\town_check\tkey\tother_checks\n"; cat $OUT.body ) > $OUT; rm -f $OUT.body
